@@ -693,7 +693,9 @@ def check_known_classes(chk, prop):
 
 PO_TEXTS = {"t_plain": ("A = Cmd(P = 1)\nB = Other()", 1, 3), "t_lead": ("\n# c\n\nA = Cmd(\n  P = 1\n)\nB = Other()", 4, 3),
             "t_crlf": ("\r\n\r\nA = Cmd(P = 1)\r\nB = Other()\r\n", 3, 3), "t_v2": ("\nREAD(InFieldName = x)\n", 2, 2),
-            "t_split": ("\nA =\n  Cmd(P = 1)", 2, 3)}
+            "t_split": ("\nA =\n  Cmd(P = 1)", 2, 3),
+            # malformed texts: the parse raises after some lines have been lexed
+            "t_bad": ("\n\nA = Cmd(\n  P = \n)\nB = Other()", -1, -1), "t_badv2": ("\nREAD(InFieldName = x)\n\nB = Other(P = [1, )\n", -1, -1)}
 
 
 def parser_histories(chk, tier):
@@ -701,13 +703,13 @@ def parser_histories(chk, tier):
     cfg = os.path.join(d, "p.cfg")
     maxhist = 3 if tier == "quick" else 4
     with open(cfg, "w") as f:
-        f.write('CONSTANTS ResetOnParse = TRUE CrLfIsOne = TRUE CmdLineFrom = "result" NParsers = 2 MaxHist = %d\nINIT Init\nNEXT Next\nCHECK_DEADLOCK FALSE\n'
+        f.write('CONSTANTS ResetWhen = "start" CrLfIsOne = TRUE CmdLineFrom = "result" NParsers = 2 MaxHist = %d\nINIT Init\nNEXT Next\nCHECK_DEADLOCK FALSE\n'
                 "INVARIANT LinesTrue\nINVARIANT VersionByText\nINVARIANT Report\n" % maxhist)
     r = core.run_tlc("MPParserObj", cfg, workers=4, timeout=600)
     if r.violated or r.error or r.rc != 0:
         sys.stderr.write("MACHINERY FAILURE: MPParserObj\n%s\n" % r.out[-2000:])
         sys.exit(2)
-    chk.add_tlc("MPParserObj histories", r, "ResetOnParse=TRUE CrLfIsOne=TRUE CmdLineFrom=result NParsers=2 MaxHist=%d" % maxhist)
+    chk.add_tlc("MPParserObj histories", r, "ResetWhen=start CrLfIsOne=TRUE CmdLineFrom=result NParsers=2 MaxHist=%d" % maxhist)
     hists = [h[1] for h in core.parse_printt(r.out, "HIST")]
     core.sut()
     from mpilot.parser.parser import Parser
